@@ -38,6 +38,19 @@ def _squeeze(line: List[int]) -> Tuple[List[int], int]:
     return out + [0] * (len(line) - len(out)), gained
 
 
+def _merge_flags(tiles: List[int]) -> Tuple[List[int], List[bool]]:
+    """Tiles of one line after the move (same pairing rule as _squeeze) and, for each, whether a merge produced it."""
+    out: List[int] = []
+    fresh: List[bool] = []
+    i = 0
+    while i < len(tiles):
+        pair = i + 1 < len(tiles) and tiles[i] == tiles[i + 1]
+        out.append(tiles[i] + 1 if pair else tiles[i])
+        fresh.append(bool(pair))
+        i += 2 if pair else 1
+    return out, fresh
+
+
 def slide(board: np.ndarray, a: int) -> Tuple[np.ndarray, int]:
     """Board after sliding in direction a (before any tile is spawned) and the value merged."""
     b = np.asarray(board).astype(np.int64)
@@ -202,6 +215,48 @@ class A(Adapter):
     # ---- C11 (no time limit; the only documented end is "no legal move") -------------------------
     def end_cause(self, ps, action, s, ts, env, cfg):
         return None if self.legal(s, env).any() else "no_legal_move"
+
+    # ---- reach probes ---------------------------------------------------------------------------
+    def events(self, ps, action, s, ts, env, cfg):
+        nb = np.asarray(s.board).astype(np.int64)
+        if ps is None:
+            ev = ["reset_tile_4" if int(nb.max()) == 2 else "reset_tile_2"]
+            r, c = (int(v) for v in np.argwhere(nb > 0)[0]) if (nb > 0).any() else (-1, -1)
+            if r in (0, nb.shape[0] - 1) and c in (0, nb.shape[1] - 1):
+                ev.append("reset_tile_in_corner")
+            return ev
+        a = int(action)
+        pb = np.asarray(ps.board).astype(np.int64)
+        moved, gained = slide(pb, a)
+        if np.array_equal(moved, pb):
+            return ["illegal_move_ignored"] + (["illegal_move_on_full_board"] if (pb > 0).all() else [])
+        ev = ["merge" if gained else "slide_without_merge"]
+        lines = [pb[:, c] for c in range(pb.shape[1])] if a in (0, 2) else [pb[r, :] for r in range(pb.shape[0])]
+        double = 0
+        for ln in lines:  # the lines as the move sees them: tiles only, first the one nearest to the side moved towards
+            t = [int(v) for v in (ln[::-1] if a in (1, 2) else ln) if v != 0]
+            out, fresh = _merge_flags(t)
+            if sum(fresh) >= 2:
+                ev.append("two_merges_in_one_line")
+                double += 1
+            if any(t[i] == t[i + 1] == t[i + 2] for i in range(len(t) - 2)):
+                ev.append("three_equal_tiles_in_line")
+            if any(out[k] == out[k + 1] and (fresh[k] or fresh[k + 1]) for k in range(len(out) - 1)):
+                ev.append("fresh_tile_next_to_equal_tile")  # e.g. 2 2 4 -> 4 4: a tile made by a merge must not merge again
+        if double >= 2:
+            ev.append("two_lines_with_two_merges")
+        diff = np.argwhere(nb != moved)
+        if len(diff) == 1:
+            ev.append("spawned_4" if int(nb[tuple(diff[0])]) == 2 else "spawned_2")
+        if gained and int(moved.max()) > int(pb.max()):
+            ev.append("new_max_tile")
+            if int(moved.max()) >= 7:
+                ev.append("created_tile_ge_128")
+        if not (nb == 0).any():
+            ev.append("board_full")
+        if int(ts.step_type) == 2 and not self.legal(s, env).any():
+            ev.append("ended_no_legal_move")
+        return sorted(set(ev))
 
     # ---- C12 -------------------------------------------------------------------------------------
     def observe(self, s, obs, env, cfg):
